@@ -81,6 +81,21 @@ pub fn c16(ctx: &Ctx) -> (CheckMeta, Outcome) {
             other => out.violations.push(v("C16", "names", "roundtrip".into(), "parse", "value", format!("{:?} prints as {:?} which parses as {:?}", c, s, other.map(|x| format!("{:?}", x)).map_err(|e| e.to_string())), json!({"kind": "name", "text": s}))),
         }
     }
+    // formatting with a width / alignment (space fill): whatever the implementation does with the
+    // flags, the text must still parse (surrounding padding is trimmed first) to the same code
+    for c in &all {
+        let texts = [format!("{:4}", c), format!("{:>12}", c), format!("{:<12}", c), format!("{:^15}", c), format!("{:1}", c)];
+        for s in texts {
+            out.cov.evaluations += 1;
+            match s.trim().parse::<Codes>() {
+                Ok(c2) if format!("{:?}", c2) == format!("{:?}", c) => {}
+                other => {
+                    out.violations.push(v("C16", "names", "roundtrip".into(), "parse", "value", format!("{:?} formatted with a width prints as {:?} which parses as {:?}", c, s, other.map(|x| format!("{:?}", x)).map_err(|e| e.to_string())), json!({"kind": "name", "text": s})));
+                    break;
+                }
+            }
+        }
+    }
     out.cov.sample(json!({"roundtrip": all.iter().take(12).map(|c| c.to_string()).collect::<Vec<_>>()}));
     // (2) malformed text must be rejected
     let param_names = ["Zeta", "Pi", "Golomb", "ExpGolomb", "Rice"];
@@ -114,6 +129,17 @@ pub fn c16(ctx: &Ctx) -> (CheckMeta, Outcome) {
         for suf in ["x", " ", "_", "é", "1"] {
             malformed.push(format!("{}{}{}", name, suf, rest));
         }
+    }
+    // a closing bracket where the opening one belongs: the name part (up to the first '(') is then
+    // not a code name
+    for n in param_names {
+        for t in [")3", ")3(", ")3)", ")", "))", ")3)(", ")(3)", ") 3"] {
+            malformed.push(format!("{}{}", n, t));
+        }
+    }
+    for n in ["Gamma", "Unary", "VByteBe"] {
+        malformed.push(format!("{})", n));
+        malformed.push(format!("{})3", n));
     }
     // long and non-ASCII texts (error paths that quote the input must not panic)
     for n in [31usize, 32, 33, 40, 64, 200] {
@@ -197,7 +223,7 @@ fn c16_meta() -> CheckMeta {
     CheckMeta {
         property: "C16".into(),
         level: "exploration".into(),
-        rule: "complete enumeration: (1) every Codes variant x parameter 0..=64, 1000, 65536, 2^31, usize::MAX: parse(to_string(c)) is structurally c (Debug); (2) a grammar of malformed texts (13 non-names x {none,(3),(),(x)}; 5 parametric names x {missing, (), (x), (-1), (1.5), overflowing, (0x10)}; every valid text with 11 prefixes (x, space, ::, Foo::, Codes::, ...) and its name with 5 suffixes; long (31..200 bytes) and non-ASCII texts) must be Err, never a code, never a panic; (3) identifiers 0..=50 map to a code that maps back to the same identifier, 51..=80, 2^20, usize::MAX are Err; (4) to_code_const then from_code_const gives identical codewords (14-value grid, both endiannesses) for every variant with parameter 0..=16; (5) all pairs of those codes that compare == but are structurally different write identical bytes; non-trivial = parametric or malformed case".into(),
+        rule: "complete enumeration: (1) every Codes variant x parameter 0..=64, 1000, 65536, 2^31, usize::MAX: parse(to_string(c)) is structurally c (Debug), also when formatted with a width/alignment ({:4}, {:>12}, {:<12}, {:^15}; outer padding trimmed); (2) a grammar of malformed texts (13 non-names x {none,(3),(),(x)}; 5 parametric names x {missing, (), (x), (-1), (1.5), overflowing, (0x10)}; every valid text with 11 prefixes (x, space, ::, Foo::, Codes::, ...) and its name with 5 suffixes; ')' in the place of '('; long (31..200 bytes) and non-ASCII texts) must be Err, never a code, never a panic; (3) identifiers 0..=50 map to a code that maps back to the same identifier, 51..=80, 2^20, usize::MAX are Err; (4) to_code_const then from_code_const gives identical codewords (14-value grid, both endiannesses) for every variant with parameter 0..=16; (5) all pairs of those codes that compare == but are structurally different write identical bytes; non-trivial = parametric or malformed case".into(),
         assumptions: vec!["trailing text after a valid parameter and a parameter on a parameterless name are not constrained (the property does not mention them)".into()],
     }
 }
@@ -453,6 +479,61 @@ pub fn c18(ctx: &Ctx) -> (CheckMeta, Outcome) {
                             fail = Some(format!("generic vbyte_read::<{}> of {} is wrong", name, crate::util::hex(&want)));
                         }
                     }
+                    // a source / sink that answers ErrorKind::Interrupted once, before byte j of the codeword
+                    // (nothing is transferred by such a call): the function may report the error, but a
+                    // result it does return must be the right one
+                    if fail.is_none() {
+                        struct IntrSrc<'a>(&'a [u8], usize, usize, bool);
+                        impl<'a> std::io::Read for IntrSrc<'a> {
+                            fn read(&mut self, buf: &mut [u8]) -> std::io::Result<usize> {
+                                if self.1 == self.2 && !self.3 {
+                                    self.3 = true;
+                                    return Err(std::io::Error::new(std::io::ErrorKind::Interrupted, "interrupted"));
+                                }
+                                if buf.is_empty() || self.1 >= self.0.len() {
+                                    return Ok(0);
+                                }
+                                buf[0] = self.0[self.1];
+                                self.1 += 1;
+                                Ok(1)
+                            }
+                        }
+                        struct IntrSink(Vec<u8>, usize, bool);
+                        impl std::io::Write for IntrSink {
+                            fn write(&mut self, buf: &[u8]) -> std::io::Result<usize> {
+                                if self.0.len() >= self.1 && !self.2 {
+                                    self.2 = true;
+                                    return Err(std::io::Error::new(std::io::ErrorKind::Interrupted, "interrupted"));
+                                }
+                                // never past the interruption point in one call
+                                let room = if self.2 { buf.len() } else { (self.1 - self.0.len()).min(buf.len()) };
+                                self.0.extend_from_slice(&buf[..room]);
+                                Ok(room)
+                            }
+                            fn flush(&mut self) -> std::io::Result<()> {
+                                Ok(())
+                            }
+                        }
+                        for j in 0..want.len() {
+                            let mut src = IntrSrc(&want, 0, j, false);
+                            let r = if big { vbyte_read_be(&mut src) } else { vbyte_read_le(&mut src) };
+                            if let Ok(y) = r {
+                                if y != x || src.1 != want.len() {
+                                    fail = Some(format!("vbyte_read_{} of {} from a source that answers Interrupted once before byte {} returned {} having consumed {} bytes", name, crate::util::hex(&want), j, y, src.1));
+                                    break;
+                                }
+                            }
+                            let mut sink = IntrSink(Vec::new(), j, false);
+                            let r = if big { vbyte_write_be(x, &mut sink) } else { vbyte_write_le(x, &mut sink) };
+                            if let Ok(n) = r {
+                                if sink.0 != want || n != want.len() {
+                                    fail = Some(format!("vbyte_write_{}({}) into a sink that answers Interrupted once before byte {} returned Ok({}) having written {} (expected {})", name, x, j, n, crate::util::hex(&sink.0), crate::util::hex(&want)));
+                                    break;
+                                }
+                            }
+                            out.cov.evaluations += 2;
+                        }
+                    }
                     if let Some(d) = fail {
                         if out.violations.len() < 20 {
                             out.violations.push(v("C18", "vbyte-io", name.into(), "io", "value", d, json!({"kind": "none"})));
@@ -679,7 +760,7 @@ pub fn c18(ctx: &Ctx) -> (CheckMeta, Outcome) {
     let meta = CheckMeta {
         property: "C18".into(),
         level: "exploration".into(),
-        rule: "(1) every value below 2^21, every length-step boundary +-2 up to 10 bytes, 2^64-1 and seeded values: vbyte_write_be/le and the generic vbyte_write::<E> vs the reference (offset definition of the complete code), returned length, byte_len_vbyte/bit_len_vbyte, vbyte_read_* inversion and bytes consumed, also into a sink that accepts 3 bytes per call and from a source that yields one byte per call; (2) bit-stream write_vbyte_be/le at byte-aligned positions (0, 1, 3 leading bytes) for both stream endiannesses and every writer word 8..128 vs the io functions, read back with the bit-stream trait; bit-stream codes ending with the last byte of a strict stream (every reader kind); (3) completeness: ALL 2 113 664 terminated byte strings of length <= 3 and all 268 435 456 of length 4 (thorough: also all 2^35 of length 5) (both variants) and 200 000 seeded longer ones decode to a value whose encoding is the same string (hence distinct strings <-> distinct values); non-trivial = multi-byte".into(),
+        rule: "(1) every value below 2^21, every length-step boundary +-2 up to 10 bytes, 2^64-1 and seeded values: vbyte_write_be/le and the generic vbyte_write::<E> vs the reference (offset definition of the complete code), returned length, byte_len_vbyte/bit_len_vbyte, vbyte_read_* inversion and bytes consumed, also into a sink that accepts 3 bytes per call and from a source that yields one byte per call, and from/into a source/sink that answers ErrorKind::Interrupted once before byte j for every j (a reported error is accepted, a wrong result is not); (2) bit-stream write_vbyte_be/le at byte-aligned positions (0, 1, 3 leading bytes) for both stream endiannesses and every writer word 8..128 vs the io functions, read back with the bit-stream trait; bit-stream codes ending with the last byte of a strict stream (every reader kind); (3) completeness: ALL 2 113 664 terminated byte strings of length <= 3 and all 268 435 456 of length 4 (thorough: also all 2^35 of length 5) (both variants) and 200 000 seeded longer ones decode to a value whose encoding is the same string (hence distinct strings <-> distinct values); non-trivial = multi-byte".into(),
         assumptions: vec![],
     };
     (meta, out)
@@ -982,21 +1063,30 @@ pub fn c20(ctx: &Ctx) -> (CheckMeta, Outcome) {
             out.cov.configs.insert("synthetic-steps".into());
             // steps: subsets {a} ∪ {b} ∪ {c} with a < b < c indexes; index g = "no step"
             let mut run = |steps: Vec<u64>, out: &mut Outcome| {
-              // two value maps: small values, and the same with the highest level = usize::MAX
-              // (a legal value of a non-decreasing function u64 -> usize)
-              for top_max in [false, true] {
-                if top_max && steps.is_empty() {
+              // three value maps: small values; the same with the highest level = usize::MAX (a legal
+              // value of a non-decreasing function u64 -> usize); levels 2^32 apart (equal in their low
+              // 8, 16 and 32 bits: the comparison of successive values must use the whole usize)
+              for vmap in 0..3u8 {
+                let top_max = vmap == 1;
+                if vmap != 0 && steps.is_empty() {
                     continue;
                 }
                 let st = steps.clone();
                 let nsteps = steps.len();
                 let f = move |x: u64| -> usize {
                     let lvl = st.iter().filter(|&&p| x >= p).count();
-                    if top_max && lvl == nsteps {
+                    if vmap == 2 {
+                        7 + (lvl << 32)
+                    } else if top_max && lvl == nsteps {
                         usize::MAX
                     } else {
                         3 + lvl * 2
                     }
+                };
+                let what = match vmap {
+                    1 => " (top value usize::MAX)",
+                    2 => " (levels 2^32 apart)",
+                    _ => "",
                 };
                 out.cov.evaluations += 1;
                 if !steps.is_empty() {
@@ -1006,14 +1096,14 @@ pub fn c20(ctx: &Ctx) -> (CheckMeta, Outcome) {
                     Ok(items) => {
                         if let Err(d) = judge_points(&items, &f, Some(&steps)) {
                             if out.violations.len() < 10 {
-                                out.violations.push(v("C20", "find-change", "synthetic".into(), "next", "value", format!("steps at {:?}{}: {}", steps, if top_max { " (top value usize::MAX)" } else { "" }, d), json!({"kind": "steps", "steps": steps, "top_max": top_max})));
+                                out.violations.push(v("C20", "find-change", "synthetic".into(), "next", "value", format!("steps at {:?}{}: {}", steps, what, d), json!({"kind": "steps", "steps": steps, "value_map": vmap})));
                             }
                         }
                     }
                     Err(d) => {
                         let sym = if d.starts_with("panic") { "panic" } else { "hang" };
                         if out.violations.len() < 10 {
-                            out.violations.push(v("C20", "find-change", "synthetic".into(), "next", sym, format!("steps at {:?}{}: {}", steps, if top_max { " (top value usize::MAX)" } else { "" }, d), json!({"kind": "steps", "steps": steps, "top_max": top_max})));
+                            out.violations.push(v("C20", "find-change", "synthetic".into(), "next", sym, format!("steps at {:?}{}: {}", steps, what, d), json!({"kind": "steps", "steps": steps, "value_map": vmap})));
                         }
                     }
                 }
@@ -1049,7 +1139,7 @@ pub fn c20(ctx: &Ctx) -> (CheckMeta, Outcome) {
     let meta = CheckMeta {
         property: "C20".into(),
         level: "exploration".into(),
-        rule: "(1) every library length function (unary, gamma, delta, omega, vbyte, zeta/pi/rice/exp-golomb with parameters 0..=16, 31, 63, golomb 1..=64 and six larger moduli): len(v) <= len(v+1) for all v below 2^20 (thorough 2^21) and within 2^10 of every power of two; Kraft sum of the dense prefix in exact arithmetic (numerator over 2^(2^21)) must not exceed 1; (2) FindChangePoints on each of those functions, driven through a closure with a 200 000-call budget: first item (0, f(0)), strictly increasing, every item a true change point with the new value, none of the true change points of the dense prefix missed, iteration ends; (3) get_implied_distribution terminates for each code and its probabilities are 2^-len x run length, and sample_implied_distribution can be set up (seeded rng) and yields 16 values whose codewords are at most 128 bits; (4) ALL synthetic non-decreasing step functions with at most 5 (thorough: 6) steps at positions from a 39-point grid (1..9, around 2^7, 2^16, 2^20, 2^31..2^33, 2^47, 2^62, 2^63 +-1, beyond 2^63, 2^64-2), including the constant function, each with small values and with usize::MAX as its highest value: same oracle, every step <= 2^63 must be reported; non-trivial = value at which a length steps / function with at least one step".into(),
+        rule: "(1) every library length function (unary, gamma, delta, omega, vbyte, zeta/pi/rice/exp-golomb with parameters 0..=16, 31, 63, golomb 1..=64 and six larger moduli): len(v) <= len(v+1) for all v below 2^20 (thorough 2^21) and within 2^10 of every power of two; Kraft sum of the dense prefix in exact arithmetic (numerator over 2^(2^21)) must not exceed 1; (2) FindChangePoints on each of those functions, driven through a closure with a 200 000-call budget: first item (0, f(0)), strictly increasing, every item a true change point with the new value, none of the true change points of the dense prefix missed, iteration ends; (3) get_implied_distribution terminates for each code and its probabilities are 2^-len x run length, and sample_implied_distribution can be set up (seeded rng) and yields 16 values whose codewords are at most 128 bits; (4) ALL synthetic non-decreasing step functions with at most 5 (thorough: 6) steps at positions from a 39-point grid (1..9, around 2^7, 2^16, 2^20, 2^31..2^33, 2^47, 2^62, 2^63 +-1, beyond 2^63, 2^64-2), including the constant function, each with small values, with usize::MAX as its highest value and with levels 2^32 apart: same oracle, every step <= 2^63 must be reported; non-trivial = value at which a length steps / function with at least one step".into(),
         assumptions: vec!["Kraft terms below 2^-(2^21) are ignored (only possible for unary-like codes beyond the dense prefix)".into()],
     };
     (meta, out)
